@@ -14,11 +14,13 @@ CLAIMED = {
                 technique='deterministic simulation: baton-passing scheduler over real threads + in-memory POSIX fs with flock, seeded schedule search, process-kill injection'),
     'C05': dict(level='exploration', ref='DESIGN.md 6.1',
                 text='seeded histories of store / bulk store / load (also with metadata) / bulk load / is_cached / remove / bulk remove / reopen, '
-                     'issued alternately through two cache objects open on the same store (two processes\' views), over addresses '
+                     'issued alternately through two cache objects open on the same store (two processes\' views; a fresh object\'s first '
+                     'operation is the next one of the history), with wall-clock steps in between, over addresses '
                      'chosen to collide in every backend (level 0, bundle borders, path digit groups, equal x/y at different '
                      'levels, dimension values, shared single-colour links), real backend objects compared operation by '
                      'operation and by full-pool sweeps with a dict reference model; separate I/O-fault configuration '
-                     '(EIO/ENOSPC/EACCES/short write inside a mutating call) for the file and compact backends on SimFS.',
+                     '(EIO/ENOSPC/EACCES/short write inside a mutating call, one-shot or lasting until the call returns) for the file and compact '
+                     'backends on SimFS; about one case in 200 is a three-phase history in three separately started interpreters.',
                 note='trusted: SimFS for file/compact backends; sqlite-based backends run on a real tmpfs directory outside the '
                      'simulator (sequential, fault-free only; a second connection waits 0.3 s of real time for a locked database); sampling of histories, not exhaustive',
                 technique='deterministic simulation: model-based history checking against a reference map on a simulated file system with I/O-fault injection'),
@@ -41,7 +43,8 @@ CLAIMED = {
                      'compared with a dict model; the real defrag_compact_cache then runs with seeded thresholds: same bytes '
                      'for every address, no file grew, still valid. Concurrent configuration: 2-4 writer processes '
                      'scheduled at file-system-call granularity (incl. 3-4 writers contending for one bundle with lock-retry timers '
-                     'firing while the holder runs), checked at quiescence.',
+                     'firing while the holder runs), checked at quiescence. Sequential histories also meet I/O errors (one-shot or sticky) inside '
+                     'a store/remove - the bundle must stay structurally valid - and dry-run defragmentations that must not change a byte.',
                 note='trusted: the independent parser (checks/bundleparse.py), SimFS; histories and schedules are sampled',
                 technique='deterministic simulation: model-based history checking with an independent bundle parser; seeded schedule search for concurrent bundle writers'),
     'C15': dict(level='exploration', ref='DESIGN.md 6.8',
@@ -52,7 +55,8 @@ CLAIMED = {
                      'order (None is a legitimate result), own exception object per failing item (or raised after an in-order prefix), each item run at most '
                      'once, the call terminates; a second call on the same pool object is judged the same way. Call-site mode: 1-3 request '
                      'threads on one real TileManager each fan out 2-4 tile creations (TileCreator._create_threaded) with seeded failing '
-                     'fetches: every caller gets its own tiles in input order, a failure reaches exactly the caller it belongs to.',
+                     'fetches: every caller gets its own tiles in input order, a failure reaches exactly the caller it belongs to. Pool re-use after a first call that the consumer abandoned at the first '
+                     'failing result (as the call sites do), with seeded garbage-collection points during the second call.',
                 note='trusted: SimQueue has queue.Queue semantics; pre-emption only at queue operations and explicit item steps',
                 technique='deterministic simulation: baton-passing scheduler adopting the pool\'s real worker threads, seeded completion-order search'),
     'C08': dict(level='exploration', ref='DESIGN.md 6.4',
@@ -63,7 +67,8 @@ CLAIMED = {
                      '(independence in simulated time), upstream failures, process kill. Oracle: every response pixel-exact '
                      'and attributable to one fetch, final cache holds only correct in-grid tiles incl. every served tile '
                      '(API + raw walk), one fetch per meta tile, termination. A rare lock-identity case starts two fresh interpreters with '
-                     'different hash seeds and compares the lock file names they derive for the same tiles and bundles.',
+                     'different hash seeds and compares the lock file names they derive for the same tiles and bundles. Backends include linked '
+                     'single-colour tiles (one shared file per colour, written without a tile lock of its own).',
                 note='trusted: stub source (TileManager-level runs) or simulated HTTP transport behind HTTPClient.open (about 20% of the '
                      'runs go through the full WSGI application built by the real loader: TMS/WMTS/KML/WMS-C/WMS GetMap), SimFS '
                      'flock/rename semantics, pre-emption at seam calls only',
@@ -75,7 +80,7 @@ CLAIMED = {
                      'file cache (also with symlinked single-colour tiles) on SimFS or per-level sqlite cache, plus two or three concurrent requests under a refresh rule; oracle from the timestamps actually recorded: stale tile => '
                      'upstream asked, tile rewritten with the new fetch generation; fresh tile => no upstream call, same '
                      'generation; a failed refresh never removes or changes the stored tile; a tile written during a request is recorded with '
-                     'the time of that write even when the source reports older data; same-second band unspecified. Cases run in seeded '
+                     'the time of that write even when the source reports older data; single stored tiles may be aged (mixed-age meta tiles); the seeding tile manager carries the cache\'s own refresh_before; same-second band unspecified. Cases run in seeded '
                      'fixed-offset local time zones.',
                 note='trusted: simulated clock behind time.time/time.sleep/datetime.now of util/times.py, stub upstream, SimFS mtimes; '
                      'sqlite backend outside the simulator',
@@ -88,14 +93,14 @@ CLAIMED = {
                      'HTTPClient.open; oracle: identical validators and body while the fetch generation in the pixels is '
                      'unchanged, 304 + empty body for the current ETag, every 304 justified (also for the previous copy\'s validators, pre-1970 '
                      'dates and requests that themselves trigger the refresh), fill images carry no-store, get no 304 and are never '
-                     'served from the cache. Dates are written and read by the check\'s own code; cases run in seeded fixed-offset local time zones.',
+                     'served from the cache. A cacheable 404 mapping of the same colour may sit next to the uncached 500 one (the oracle replays what is stored per tile); race cases rewrite a tile through the cache API while it is served (a response\'s ETag may equal the stored tile\'s only if the bodies agree). Dates are written and read by the check\'s own code; cases run in seeded fixed-offset local time zones.',
                 note='trusted: simulated HTTP transport and clock; sqlite backend outside the simulator; creating responses are '
                      'excluded from the equality clause',
                 technique='deterministic simulation: full WSGI stack over simulated clock, file system and upstream with HTTP-500 injection; model-based history checking'),
     'C12': dict(level='exploration', ref='DESIGN.md 6.6',
                 text='seeded cache contents (tiles stored at seeded simulated times, some in the same second; foreign objects: a '
                      'second cache, lock files, stray files) x one cleanup task (level list / range / open and zero-ended ranges / all; remove_all, remove_before as '
-                     'absolute time / relative age / file mtime, default; full extent, bbox (grid SRS or EPSG:4326), polygon or multi-part coverage; seeded fixed-offset local time zone; factor-2, sqrt2 and custom-resolution grids) built by the real '
+                     'absolute time / relative age / file mtime, default; full extent, bbox (grid SRS or EPSG:4326), polygon or multi-part coverage; seeded fixed-offset local time zone and file time-stamp granularity; a deep variant places tiles around the bundle borders of levels 8/9; factor-2, sqrt2 and custom-resolution grids) built by the real '
                      'CleanupConfiguration and executed by the real cleanup() - all three strategies, with the real '
                      'TileCleanupWorker threads under the scheduler - on file (6 layouts, linked single-colour tiles, cache-level refresh_before), compact v1/v2 (SimFS), sqlite, mbtiles, '
                      'geopackage (tmpfs); oracle from recorded timestamps and independent geometry: must-remove / must-keep / '
@@ -104,7 +109,7 @@ CLAIMED = {
                 technique='deterministic simulation: simulated clock + file system (readdir order permuted), real cleanup workers under the baton scheduler, model-based checking'),
     'C11': dict(level='exploration', ref='DESIGN.md 6.5',
                 text='seeded seed tasks (factor-2 / sqrt2 / custom-resolution grids, non-square extents, ll/ul origin, level '
-                     'subsets given as lists, ranges (open, zero-ended, beyond the grid) or resolutions, bbox / concave / multi-part coverages in the grid SRS or EPSG:4326, meta sizes, skip_geoms_for_last_levels, progress cadence, '
+                     'subsets given as lists, ranges (open, zero-ended, beyond the grid) or resolutions, bbox / concave / multi-part coverages and two coverages per seed entry in the grid SRS or EPSG:4326, one or two caches per seed entry, meta sizes, skip_geoms_for_last_levels, progress cadence, '
                      'per-hand-off simulated work time) run through the real seed()/TileWalker/SeedProgress/ProgressLog/ProgressStore '
                      'with a recording pool at the hand-off; uninterrupted run compared with a brute-force shapely oracle over whole '
                      'levels (complete up to one pixel of the finest selected level, minimal up to a one-pixel band); then the same task with 1-3 seeded interruptions '
